@@ -68,11 +68,11 @@ def check_C02(tier, seed):
     out = Outcome("C02", tier, seed)
     maxflows = 2 if tier == "quick" else 5
     models = [Model("MC_MassBalance.tla", {"Schemes": {k}, "MaxFlows": maxflows, "Emit": True, "GModes": {1}},
-                    invariants=["Prop_C02", "EmitInv"], workers=2 if tier == "quick" else 3,
+                    invariants=["Prop_C02", "EmitInv"], workers=4,
                     label=f"MC_MassBalance/scheme{k}/maxflows{maxflows}") for k in ((2, 3, 5) if tier == "quick" else (1, 2, 3, 4, 5))]
     # base values antisymmetric in r: all-zero flows of lower dimensionality and flows whose entries cancel
     models += [Model("MC_MassBalance.tla", {"Schemes": {k}, "MaxFlows": 2 if tier == "quick" else 3, "Emit": True, "GModes": {2}},
-                     invariants=["Prop_C02", "EmitInv"], workers=2 if tier == "quick" else 3,
+                     invariants=["Prop_C02", "EmitInv"], workers=4,
                      label=f"MC_MassBalance/scheme{k}/cancelling") for k in ((3,) if tier == "quick" else (1, 3, 4, 5))]
     vectors = []
     for m, res in core.run_models(models, seed=seed, parallel=5):
